@@ -38,6 +38,14 @@
 (*                        Close waits for the calls in flight (label C1w), *)
 (*                        and ReadFrom looks at the close flag under the   *)
 (*                        handle lock                                      *)
+(*   RecheckAfterRecv TRUE: (negative control, never the code) AcceptStream *)
+(*                        re-reads closeCh in the window between receiving  *)
+(*                        a connection from the shared channel and          *)
+(*                        returning it, and closes the connection when its  *)
+(*                        handle was closed meanwhile: the connection is    *)
+(*                        lost although another handle of the address is    *)
+(*                        open (C12 "never lost while some handle keeps     *)
+(*                        accepting"; tag dropped-while-open)               *)
 (***************************************************************************)
 EXTENDS Integers, Sequences, FiniteSets, TLC
 
@@ -50,6 +58,8 @@ CONSTANTS ForeignKeys,    \* keys whose address a foreign socket holds: binding 
           NH,             \* handle slots
           MaxObj, MaxSock,
           CbUnderLock, Capture, GiveUp, PreCheckClosed, NilPacketSock, CloseWaits, ErrAware,
+          RecheckAfterRecv, \* TRUE: AcceptStream looks at closeCh once more AFTER it has received a connection and, if its
+                            \* handle has been closed meanwhile, closes the connection and fails (seeded change C06-K; not the code)
           AcceptErrors    \* how many accept calls the environment may fail with a non-closed error (EMFILE ...)
 
 VARIABLES foreign,                  \* keys whose address a foreign socket holds NOW (initially ForeignKeys; a "free" op releases one)
@@ -257,6 +267,13 @@ Delivered(t, h, i) == /\ fate' = [fate EXCEPT ![i] = [st |-> "delivered", at |->
                       \* to a call that began after Close had returned, or an item that was sent only after Close had returned
                       /\ bad' = IF tafter[t] \/ h \in sentAfter[i] THEN bad \cup {"delivered-after-close"} ELSE bad
 
+\* the server itself closes accepted connection i of shared listener o without any call having returned it.  C12: that is
+\* allowed only when the connection can no longer be handed to anyone, i.e. no handle of the address is open
+\* (handles of the bind whose accept channel is c: a later bind of the same address is another socket)
+OpenHandlesOf(c, except) == {h2 \in HS \ {except} : hd[h2].st = "open" /\ hd[h2].ch = c /\ ~hd[h2].closeCh}
+ServerCloses(i, c, except) == /\ fate' = [fate EXCEPT ![i] = [st |-> "srvclosed", at |-> 0]]
+                              /\ bad' = IF OpenHandlesOf(c, except) # {} THEN bad \cup {"dropped-while-open"} ELSE bad
+
 \* select, branch "receive from the goroutine" (rendezvous: both sides move)
 A2recv(t) == /\ pc[t] = "A2"
              /\ LET h == Op(t).h IN
@@ -265,7 +282,9 @@ A2recv(t) == /\ pc[t] = "A2"
                   /\ \/ /\ hd[h].kind = "s" /\ gor[g].pc = "send" /\ gor[g].sch = lch[t]
                         /\ gor' = [gor EXCEPT ![g].pc = IF Capture THEN "accept" ELSE "top", ![g].held = 0]
                         /\ IF gor[g].held > 0
-                           THEN Delivered(t, h, gor[g].held)
+                           THEN IF RecheckAfterRecv /\ hd[h].closeCh
+                                THEN ServerCloses(gor[g].held, lch[t], h)   \* received, then thrown away: the call fails with ErrClosed
+                                ELSE Delivered(t, h, gor[g].held)
                            ELSE UNCHANGED <<fate, bad>>       \* the accept error is returned to this call
                      \/ /\ hd[h].kind = "p" /\ gor[g].pc = "sel" /\ gor[g].sch = lch[t]
                         /\ gor' = [gor EXCEPT ![g].pc = "read", ![g].held = 0]
@@ -335,8 +354,10 @@ Ggiveup(g) == /\ GiveUp
               /\ gor[g].pc = "send" /\ gor[g].sdone \in chClosed
               /\ gor' = [gor EXCEPT ![g].pc = "done", ![g].held = 0]
               /\ fate' = IF gor[g].held > 0 THEN [fate EXCEPT ![gor[g].held] = [st |-> "srvclosed", at |-> 0]] ELSE fate
-              \* with the result of a failed accept in its hands there is no connection to close
-              /\ bad' = IF gor[g].held < 0 /\ ~ErrAware THEN bad \cup {"panic-close-of-nil-connection"} ELSE bad
+              \* with the result of a failed accept in its hands there is no connection to close; a connection may be closed
+              \* here because nobody is left to take it (the same clause as in ServerCloses)
+              /\ bad' = (IF gor[g].held < 0 /\ ~ErrAware THEN bad \cup {"panic-close-of-nil-connection"} ELSE bad)
+                         \cup (IF gor[g].held > 0 /\ OpenHandlesOf(gor[g].sch, 0) # {} THEN {"dropped-while-open"} ELSE {})
               /\ chClosed' = chClosed \cup {gor[g].sch}
               /\ Step(G(g), "Ggiveup")
               /\ UNCHANGED <<foreign, script, pc, ip, tobj, lch, tafter, mgrLock, mgrMap, obj, nobj, sock, nsock, nch, hd, nitems, sentAfter, nerr>>
